@@ -421,7 +421,7 @@ theorem validateChain_nofuture {U : Univ} (g : Bool) (bs : List Nat) : ∀ (cs :
 
 theorem gateBatch_ok_true {U : Univ} (cfg : Cfg) (q : Req) (r : BResp) (bs : List Nat)
     (h : gateBatch U cfg q r = .ok bs true) :
-    q.baseHeight ≥ cfg.require ∧ ∃ cp, r.cp = some cp ∧ cp.isV2 = true ∧ cp.onePayout = true ∧
+    q.baseHeight ≥ cfg.require ∧ ∃ cp, r.cp = some cp ∧ cp.isV2 = true ∧ cp.onePayout = true ∧ cp.noV1 = true ∧
       sameId U cp.blk q.base = true ∧ cp.commitOk = true ∧ (U cp.blk).orphan = true ∧ r.blocks = some bs ∧
       bs.length = q.hdrs.length ∧ sameId U (bs.getLastD 0) (q.hdrs.getLastD 0) = true ∧
       validateChain U cp.genuine cp.blk bs = true := by
@@ -443,7 +443,7 @@ theorem gateBatch_ok_false {U : Univ} (cfg : Cfg) (q : Req) (r : BResp) (bs : Li
 theorem gateBatch_pre {U : Univ} (wf : WF U) (hb : HashBinds U) (cfg : Cfg) (q : Req) (r : BResp)
     (bs : List Nat) (h : gateBatch U cfg q r = .ok bs true) :
     ∀ b ∈ bs, ValidTo U (U b).parent → (U b).body = true := by
-  obtain ⟨_, cp, _, _, _, _, hc, _, _, _, _, hv⟩ := gateBatch_ok_true cfg q r bs h
+  obtain ⟨_, cp, _, _, _, _, _, hc, _, _, _, _, hv⟩ := gateBatch_ok_true cfg q r bs h
   exact validateChain_spec wf cp.genuine bs cp.blk hv (hb cp hc)
 
 theorem stepBatch_inv {U : Univ} (wf : WF U) (hb : HashBinds U) (cfg : Cfg) (n : Node) (q : Req) (r : BResp)
